@@ -75,8 +75,19 @@ impl Graph {
         // some node has two distinct predecessors
         (0..self.n).any(|j| (0..self.n).filter(|&i| self.adj[i][j]).count() >= 2)
     }
+    /// the order in which the declarations are written: a quarter top-down (every reference points
+    /// forward - the order in which a walk that follows references gets deepest), a quarter
+    /// bottom-up, the rest shuffled
     fn order(&self, salt: u64) -> Vec<usize> {
         let mut v: Vec<usize> = (0..self.n).collect();
+        match mix(salt ^ 0x0bde) % 4 {
+            0 => return v,
+            1 => {
+                v.reverse();
+                return v;
+            }
+            _ => {}
+        }
         let mut z = salt;
         for i in (1..v.len()).rev() {
             z = mix(z);
